@@ -1013,7 +1013,7 @@ def rule_found(c: Ctx) -> RuleResult:
             r.add(key, c.where(f, K), f.short, U(par if par is not None else K)[:70], "violation" if why else "discharged",
                   (why + " - an unknown rule name is treated as a position instead of failing") if why else
                   "the result is compared with the sentinel before every use as a position")
-    if nsites < 3:
-        raise AnchorError(f"only {nsites} calls of Ruler.__find__ found")
-    r.floor = 3
+    if nsites < 1:
+        raise AnchorError("no call of Ruler.__find__ found")
+    r.floor = 1
     return r
